@@ -381,8 +381,11 @@ pub fn uci_text(l: &UciLine) -> Vec<String> {
                 4 => format!("go depth {} movetime", num),
                 _ => format!("go ♔ {}", num),
             };
-            // at the start position the book answers at once; stop collects anything else
-            vec!["position startpos".to_string(), s, "stop".to_string()]
+            // at the start position the book answers at once; from a legal position outside the
+            // book a real search is started with whatever the engine made of the arguments, and
+            // stop collects it
+            let position = if (kind / 6) % 2 == 0 { "position startpos" } else { "position fen 8/8/8/8/8/2K5/7R/k7 w - - 0 1" };
+            vec![position.to_string(), s, "stop".to_string()]
         }
         UciLine::Unknown(s) => vec![s.replace('\n', " ").replace('\r', " ")],
         UciLine::Blank(k) => vec![["", " ", "\t", "   \t  ", "\u{a0}"][*k as usize % 5].to_string()],
@@ -420,7 +423,7 @@ impl Prop for UciLines {
         let line = prop_oneof![
             5 => (0u8..=10, prop::collection::vec(0u8..24, 1..4)).prop_map(|(k, t)| UciLine::StartposMoves(k, t)),
             4 => (fen_input_strategy(), prop::collection::vec(0u8..24, 0..3)).prop_map(|(f, t)| UciLine::PositionFen(f, t)),
-            3 => (0u8..6, 0u8..12).prop_map(|(a, b)| UciLine::GoBad(a, b)),
+            4 => (0u8..12, 0u8..12).prop_map(|(a, b)| UciLine::GoBad(a, b)),
             2 => "[a-z♔é ]{0,30}".prop_map(UciLine::Unknown),
             1 => any::<String>().prop_map(UciLine::Unknown),
             1 => (0u8..5).prop_map(UciLine::Blank),
@@ -559,11 +562,12 @@ pub fn plan(ctx: &Ctx) -> Plan {
                overflow checks on) and, in a child process, in the plain release build. UCI: sessions of 1-7 malformed \
                lines (position startpos moves + truncated/over-long/multi-byte tokens, position fen + mutated FEN, go with \
                bad numbers, odd position shapes, unknown/blank/1 MB lines); after every line isready must be answered with \
-               readyok, and quit must end the process with status 0. A go is only sent at the start position (searching a \
-               king-less board is not malformed text). Non-trivial = distinct strings that pass the FEN reader's gate \
+               readyok, and quit must end the process with status 0. A go is only sent at the start position (book answer) or at a fixed legal \
+               position outside the book, where a real search starts with whatever the engine made of the arguments \
+               (searching a king-less board is not malformed text). Non-trivial = distinct strings that pass the FEN reader's gate \
                without being canonical or were mutated; SAN strings of length >= 2 that are accepted or mutated; UCI \
                lines that reach argument parsing.",
-        assumptions: &["hangs are excluded by bounding input size (<= 1 MB); a stuck harness is exit 2, not a violation"],
+        assumptions: &["hangs are excluded by bounding input size (<= 1 MB); a stuck harness is exit 2, not a violation", "go with malformed arguments is sent at the start position and at one legal position outside the book"],
         self_test: super::oracle_self_test,
         post: None,
     }
